@@ -55,10 +55,10 @@ CHECKS = {
  'C15': ('input-sweep', 'bounded-exhaustive enumeration of hook scripts (sequences of table calls incl. per-record callback programs, generated state-dependently) executed through a C interpreter compiled against the shipped header and through the native API from the same initial packets; transcript and final-object equality, canaries around every out-buffer, layout comparison, measured power of the entry-order check',
          'Every script up to the stated length over an alphabet covering every table entry is run on the real table from C and natively; equality of all return values, out-buffers, error descriptions and final objects is required, buffers are bracketed by canaries, and for each pair of same-typed entries the run measures that swapping them would be noticed.',
          'UB that changes no transcript, touches no canary and does not crash is not detected; preconditions of the table are respected by the script generator', '§5 C15'),
- 'C16': ('interleave', 'stateless exploration of all interleavings of real OS threads under a baton scheduler: every schedule of fail/succeed/read scripts at table-call granularity, and every schedule with <=2 preemptions at the library\'s own yield points around the error store',
+ 'C16': ('interleave', 'stateless exploration of all interleavings of real OS threads under a baton scheduler: every schedule of fail/succeed/read scripts at table-call granularity, and every schedule with <=2 preemptions at the library\'s own yield points around the error store; threads with their own packet and threads sharing one packet; single-thread scripts of up to 4 steps',
          'The property is about a thread_local, so the threads are real; every interleaving of the scripts within the bounds is executed and each read is compared with that thread\'s own last failure. Schedules are replayed twice before any verdict.',
          'granularity = table calls + hook points; no claim about data races below it', '§4.3, §5 C16'),
- 'C17': ('interleave', 'exhaustive pairs (thorough: triples) of calls on one thread against fresh-process baselines, plus stateless preemption-bounded exploration of interleavings of real threads at the library\'s yield points (per name emitted/copied/replaced, per record parsed)',
+ 'C17': ('interleave', 'exhaustive pairs (thorough: triples) of calls on one thread against fresh-process baselines, plus stateless preemption-bounded exploration of interleavings of real threads at the library\'s yield points (per name emitted/copied/replaced, per record parsed); a free-running sampling pass over the same items is run in addition and is not part of the exhaustive claim',
          'Purity is checked over all ordered pairs of a corpus of calls (history dependence) and over all interleavings with at most 2 preemptions of concurrently running calls (schedule dependence), each result compared byte for byte with the result computed by a fresh process.',
          'granularity = hook points inside the library', '§4.3, §5 C17'),
 }
